@@ -405,3 +405,32 @@ def rule_output_dir_resolution(rep: Report, repo: Repo, rule: str) -> None:
     rep.check(flag_var is not None and passed, rule, where, f"config_template({flag_var})",
               "main does not pass exactly the relative_to_config flag to the template: the option has no effect")
     rep.floor(rule, 2, "relative_to_config facts")
+
+
+def rule_cli_defaults(rep: Report, repo: Repo, rule: str) -> None:
+    """Every command-line option bound to a settings path yields None when it is absent (so that set_args does not shadow the
+    -s file / user config with an argparse default)."""
+    rep.rule(rule, "every argparse option bound to a settings path defaults to None, so an absent flag cannot shadow the "
+                   "configured value (trigger string, strip patterns, ...)")
+    main = repo.func(MOD, "main")
+    n = 0
+    for c in calls_in(main):
+        if isinstance(c.func, ast.Attribute) and c.func.attr == "add_argument":
+            kw = {k.arg: k.value for k in c.keywords}
+            dest = kw.get("dest")
+            if dest is None or not (isinstance(dest, ast.Constant) and "." in str(dest.value)):
+                continue
+            n += 1
+            flags = [a.value for a in c.args if isinstance(a, ast.Constant)]
+            default = kw.get("default")
+            action = kw.get("action")
+            act = action.value if isinstance(action, ast.Constant) else None
+            if act in ("store_true", "store_false", "store_const", "count"):
+                okd = isinstance(default, ast.Constant) and default.value is None
+            else:
+                okd = default is None or (isinstance(default, ast.Constant) and default.value is None)
+            rep.check(okd, rule, f"{MOD}:main", f"{flags} dest={dest.value} default={norm(default) if default is not None else None}",
+                      f"option {flags} yields `{norm(default) if default is not None else act}` when absent; set_args layers that above the "
+                      f"-s file and the user config, so `{dest.value}` can no longer be configured there",
+                      witness=f"-s file sets {dest.value}, no {flags[0] if flags else ''} on the command line")
+    rep.floor(rule, 4, "settings-bound CLI options")
